@@ -464,6 +464,7 @@ func runLock(c *core.Ctx) []core.Obligation {
 			}
 		})
 	}
+	obs = append(obs, exclusiveUpdate(c)...)
 	return obs
 }
 
